@@ -3,8 +3,9 @@
    Layout invariance of the lexer is proved (white-space separators, comments anywhere between tokens), and so is the
    formatter: for every source the lexer accepts, IndentByParentheses returns a text with the same tokens and comments
    (FormatProofs.v), and a source the lexer rejects is still rejected after formatting (FormatReject.v): the formatter
-   clause holds for ANY input (prefix notation; in infix notation for every well-formed rendering). *)
-Require Import Base Opcode Tables Ops Tree Opt Flat Run Directives Lexer Parser Print LexProofs FormatProofs FormatReject.
+   clause holds for ANY input, in BOTH notations (FormatInfix.v: the lexer is a notation-independent segmentation
+   followed by a per-word classification, so the infix case, glued `!ident` included, reduces to the prefix theorems). *)
+Require Import Base Opcode Tables Ops Tree Opt Flat Run Directives Lexer Parser Print LexProofs FormatProofs FormatReject FormatInfix.
 Open Scope Z_scope.
 
 (* the lexer inverts every rendering of a token list: any (possibly empty) run of Unicode white space between
@@ -105,6 +106,48 @@ Proof.
   - rewrite (C14_indent_rejected s E). reflexivity.
 Qed.
 
+(* ---------- both notations (proofs: FormatInfix.v) ---------- *)
+
+(* the lexer factors through a notation-independent segmentation: the raw pieces (comments, literals, delimiters,
+   words) are those of the prefix lexer under the classification "every word character but the quote is a letter", and
+   each notation only reclassifies the words (infix: the `!ident` split) *)
+Theorem C14_lex_factor : forall fuel infix s,
+  lex_loop is_letter_tab is_number_tab fuel infix s =
+  match lex_loop L0 N0 fuel false s with Some raws => recl_all is_letter_tab is_number_tab infix raws | None => None end.
+Proof. exact (lex_factor is_letter_tab is_number_tab eq_refl eq_refl). Qed.
+
+(* for ANY input and EITHER notation: the formatted text lexes to the same tokens and comments (a comment ending the
+   text trimmed), and a rejected text stays rejected *)
+Theorem C14_indent_any : forall infix s,
+  lex_tab infix (indent_by_parens s) = option_map trim_last (lex_tab infix s).
+Proof. exact (indent_lex_any is_letter_tab is_number_tab eq_refl eq_refl). Qed.
+Theorem C14_indent_statement_any : forall infix s,
+  option_map drop_comments (lex_tab infix (indent_by_parens s)) = option_map drop_comments (lex_tab infix s).
+Proof. exact (indent_meaning_any is_letter_tab is_number_tab eq_refl eq_refl). Qed.
+Theorem C14_indent_parse_any : forall c infix s, Parser.parse_source c infix (indent_by_parens s) = Parser.parse_source c infix s.
+Proof.
+  intros c infix s. unfold Parser.parse_source. rewrite C14_indent_any. destruct (lex_tab infix s) as [toks|]; [|reflexivity].
+  cbn [option_map]. rewrite trim_last_drop. reflexivity.
+Qed.
+(* the directive comments before the first token survive formatting in either notation *)
+Theorem C14_indent_directives_any : forall infix s toks, lex_tab infix s = Some toks ->
+  existsb (fun t => negb (is_comment t)) toks = true ->
+  option_map leading_comments (lex_tab infix (indent_by_parens s)) = Some (leading_comments toks).
+Proof. intros infix s toks H Hn. rewrite C14_indent_any, H. cbn [option_map]. rewrite trim_last_leading by exact Hn. reflexivity. Qed.
+
+(* non-vacuity: infix source with the glued `!ident` spelling (outside wf_items), a directive comment, a string list *)
+Definition isrc : str := ss ";;;; optimize: false
+ x > 1 &&  !y ||( !z && in( s ,[""a b"" ""(c""] ))  ; end  ".
+Example C14_ex_infix :
+  exists toks, lex_tab true isrc = Some toks /\ length toks = 23%nat /\
+    In (KIdent (ss "!")) toks /\ ~ In (KIdent (ss "!y")) toks /\
+    lex_tab true (indent_by_parens isrc) = Some (trim_last toks) /\ trim_last toks <> toks /\
+    lex_tab false isrc = None /\ lex_tab false (indent_by_parens isrc) = None.
+Proof.
+  eexists. split; [vm_compute; reflexivity|]. split; [reflexivity|]. split; [vm_compute; tauto|]. split; [vm_compute; intuition discriminate|].
+  split; [vm_compute; reflexivity|]. split; [vm_compute; discriminate|]. split; vm_compute; reflexivity.
+Qed.
+
 (* non-vacuity: the same tokens under three layouts, with a string containing every delimiter *)
 Definition toks : list tok := [KLParen; KIdent (ss "="); KStr (ss "a (b); c
 "); KIdent (ss "x.y"); KRParen].
@@ -133,5 +176,7 @@ Print Assumptions C14_lex_render.
 Print Assumptions C14_indent_tokens.
 Print Assumptions C14_indent_parse.
 Print Assumptions C14_indent_statement.
+Print Assumptions C14_indent_any.
+Print Assumptions C14_indent_parse_any.
 Print Assumptions C14_layout_invariance.
 Print Assumptions C14_comments_invariance.
